@@ -29,8 +29,7 @@ def corrupt_fail_state(world, st):
     if st.ok or st.op["kind"] not in ("swap", "provide_malformed", "provide"):
         return None
     sem = st.op["sem"]
-    decl = sem["named"][0] == "n" if st.op["kind"] == "swap" else any(a[0] == "n" for a in sem["pair"].assets)
-    if not decl:
+    if not monitors.C09.declared_natives(st.op):
         return None
     k = (sem["pair"].addr, world.natives[0][1])
     st.post.bal[k] = st.post.bal.get(k, 0) + 1
